@@ -611,7 +611,7 @@ def judge_misread(chk, cases, observations):
         def fails(lines, fam=fam, case=case):
             b = {"main": "\n".join(lines) + "\n", "files": case["bundle"]["files"]}
             o = L.run_bundle(b)
-            if L.judge(b, o, "x"):
+            if any(v[0]["class"] != "returned-problem-not-writable" for v in L.judge(b, o, "x")):
                 return False
             dd = misread_of([(b, o)])[0]
             return bool(dd) and dd[0][0] == fam
@@ -700,6 +700,8 @@ def run(chk):
         verdicts += judge_abandoned(case, obs)
         if verdicts:
             report_violations(chk, case, verdicts)
+            if all(v[0]["class"] == "returned-problem-not-writable" for v in verdicts):
+                squiet.append((case, obs))  # why it is not writable may be a reference nobody checked
             continue  # the property itself is violated here: the rest is not compared
         squiet.append((case, obs))
         if smodel is not None:
@@ -770,7 +772,7 @@ def run(chk):
             chk.count(f"outcome:{m}:" + (o["out"] if o["out"] != "raises" else o["exc"]["cls"]))
         if verdicts:
             report_violations(chk, case, verdicts)
-    quiet = [(c, o) for c, (o, v) in zip(tcases, tres) if not v]
+    quiet = [(c, o) for c, (o, v) in zip(tcases, tres) if all(x[0]["class"] == "returned-problem-not-writable" for x in v)]
     judge_misread(chk, [c for c, _ in quiet], [o for _, o in quiet])
     chk.units["exploration-token-corruptions"] = {"base_files": len(bases), "cases": len(tcases), "level": "exploration (judged by the oracle on the real code; not a proof)"}
     chk.exhaustive = False
